@@ -3,7 +3,7 @@ PROPS = {}
 LEMMAS = {}
 NOT_BUILT = {}
 
-SO_MODS = ['contracts.so_tick', 'contracts.so_msg', 'contracts.so_apply', 'contracts.so_submit']
+SO_MODS = ['contracts.so_tick', 'contracts.so_msg', 'contracts.so_apply', 'contracts.so_submit', 'contracts.so_member', 'contracts.so_send', 'contracts.so_dump']
 
 PROPS['C20'] = dict(
     modules=SO_MODS, units=['tick.leader', 'tick.not-leader', 'hasQuorum'], level='proof',
@@ -18,7 +18,7 @@ PROPS['C03'] = dict(
     assumptions=[], trusted=['T-TRANSPORT'], level_text='wip', level_note='wip')
 
 PROPS['C04'] = dict(
-    modules=SO_MODS, units=['tick.leader', 'tick.not-leader', 'msg.next_node_idx'], level='proof',
+    modules=SO_MODS, units=['tick.leader', 'tick.not-leader', 'msg.next_node_idx', 'msg.append_entries', 'applyLogEntries'], level='proof',
     assumptions=[], trusted=['T-TRANSPORT'], level_text='wip', level_note='wip')
 
 PROPS['C01'] = dict(
@@ -30,9 +30,24 @@ PROPS['C12'] = dict(
     assumptions=[], trusted=['T-TRANSPORT'], level_text='wip', level_note='wip')
 
 PROPS['C17'] = dict(
-    modules=SO_MODS, units=['applyLogEntries', 'doApplyCommand'], level='proof',
+    modules=SO_MODS, units=['applyLogEntries', 'doApplyCommand', 'loadDumpFile', 'setCodeVersion'], level='proof',
     assumptions=[], trusted=['T-PICKLE'], level_text='wip', level_note='wip')
 
 PROPS['C02'] = dict(
-    modules=SO_MODS, units=['FastQueue', 'applyCommand', 'checkCommandsToApply'], level='proof',
+    modules=SO_MODS, units=['FastQueue', 'applyCommand', 'checkCommandsToApply', 'msg.apply_command', 'msg.apply_command_response', 'applyLogEntries', 'tick.election', 'msg.append_entries'], level='proof',
+    assumptions=[], trusted=['T-PICKLE'], level_text='wip', level_note='wip')
+
+PROPS['C10'] = dict(
+    modules=SO_MODS, units=['changeCluster', 'doChangeCluster', 'checkCommandsToApply.membership'], level='proof',
+    assumptions=[], trusted=['T-PICKLE'], level_text='wip', level_note='wip')
+
+PROPS['C11'] = dict(
+    modules=SO_MODS, units=['sendAppendEntries'], level='proof',
+    assumptions=[], trusted=['T-PICKLE'], level_text='wip', level_note='wip')
+
+PROPS['C09'] = dict(
+    modules=SO_MODS, units=['loadDumpFile', 'sendAppendEntries'], level='proof',
+    assumptions=[], trusted=['T-PICKLE'], level_text='wip', level_note='wip')
+PROPS['C06'] = dict(
+    modules=SO_MODS, units=['loadDumpFile', 'msg.append_entries'], level='proof',
     assumptions=[], trusted=['T-PICKLE'], level_text='wip', level_note='wip')
